@@ -107,9 +107,9 @@ def decode_obligations(ck, r, tag, n, form, bytevars, failures):
 def run(tier, seed, ck=None):
     own = ck is None
     ck = ck or Check('C03', tier, seed, level='model_checking')
-    lens0 = [0, 1, 2, 32, 33, 34, 64, 65, 66] if tier == 'quick' else list(range(0, 131))
-    lensx = [0, 1, 33, 65, 66] if tier == 'quick' else [0, 1, 2, 32, 33, 34, 64, 65, 66, 97]
-    hexl = [0, 1, 2, 66, 67, 130] if tier == 'quick' else [0, 1, 2, 3, 64, 65, 66, 67, 68, 129, 130, 131, 132]
+    lens0 = [0, 1, 2, 32, 33, 34, 64, 65, 66, 257, 289, 321] if tier == 'quick' else list(range(0, 131)) + [256, 257, 288, 289, 290, 320, 321, 322, 65537, 65569, 65601]   # 1/33/65 + 256, + 65536: lengths that alias a valid one under a narrowing conversion
+    lensx = [0, 1, 33, 65, 66, 289, 321] if tier == 'quick' else [0, 1, 2, 32, 33, 34, 64, 65, 66, 97, 98, 130, 257, 289, 321, 65569, 65601]
+    hexl = [0, 1, 2, 66, 67, 130, 132, 578, 642] if tier == 'quick' else [0, 1, 2, 3, 64, 65, 66, 67, 68, 129, 130, 131, 132, 196, 260, 514, 578, 642, 131138]
     jobs = []
     for via, lens in ((0, lens0), (1, lensx), (2, lensx), (3, lensx)):
         for n in lens:
